@@ -78,17 +78,25 @@ fn main() {
         ("custom-target-conf-without-section", true, false, Some("typegen.json")),
         ("custom-target-conf-with-section", true, true, Some("typegen.json")),
         ("custom-target-in-subdir", true, true, Some("config/typegen.json")),
+        // a file named like the default, given explicitly and relative to the working directory: it is the pointed one
+        ("bare-conf-name-in-cwd", true, false, Some("rel:tauri.conf.json")),
+        ("bare-conf-name-in-cwd-with-section", true, true, Some("rel:tauri.conf.json")),
+        ("relative-custom-target", true, false, Some("rel:typegen.json")),
     ];
     for (sname, has_conf, with_section, target) in &scenarios {
         for mode in ["none", "zod"] {
             rep.case("init_modifies_only_the_pointed_config", &format!("{} --validation {}", sname, mode), &|| {
                 let p = project(&root, &format!("init_{}_{}", sname, mode), None);
                 if *has_conf { fs::write(p.join("src-tauri/tauri.conf.json"), if *with_section { conf_with_section(&p) } else { conf_plain.to_string() }).map_err(|e| e.to_string())?; }
+                let relative = target.map(|t| t.starts_with("rel:")).unwrap_or(false);
+                let target: Option<&str> = target.map(|t| t.trim_start_matches("rel:"));
+                let target = &target;
                 if let Some(t) = target { if let Some(parent) = p.join(t).parent() { fs::create_dir_all(parent).map_err(|e| e.to_string())?; } }
+                if relative { if let Some(t) = target { if t.ends_with("tauri.conf.json") { fs::write(p.join(t), "{\n  \"productName\": \"root-config\"\n}\n").map_err(|e| e.to_string())?; } } }
                 let before = snapshot(&p);
                 let pp = p.join("src-tauri"); let gp = p.join("src/generated");
                 let mut args: Vec<String> = vec!["init".into(), "--project-path".into(), pp.to_string_lossy().into(), "--generated-path".into(), gp.to_string_lossy().into(), "--validation".into(), mode.into()];
-                let pointed: String = match target { Some(t) => { args.push("--output".into()); args.push(p.join(t).to_string_lossy().into()); t.to_string() } None => "src-tauri/tauri.conf.json".to_string() };
+                let pointed: String = match target { Some(t) => { args.push("--output".into()); args.push(if relative { t.to_string() } else { p.join(t).to_string_lossy().into() }); t.to_string() } None => "src-tauri/tauri.conf.json".to_string() };
                 let a: Vec<&str> = args.iter().map(|s| s.as_str()).collect();
                 let (code, text) = run(&cli, &p, &a)?;
                 if code != 0 && code != 1 { return Err(format!("init ended with status {}: {}", code, text.chars().take(300).collect::<String>())); }
@@ -107,6 +115,24 @@ fn main() {
             });
         }
     }
+
+    // ---------------------------------------------------------------- C16: an empty output path is the working directory
+    rep.case("empty_output_path_is_the_working_directory", "output_path \"\" in a stand-alone configuration", &|| {
+        let p = project(&root, "gen_empty_out", Some(conf_plain));
+        fs::write(p.join("typegen.json"), "{ \"project_path\": \"src-tauri\", \"output_path\": \"\", \"validation_library\": \"none\" }").map_err(|e| e.to_string())?;
+        let root_names = ["types.ts", "commands.ts", "index.ts", "events.ts", "schemas.ts", ".typecache"];
+        let there_before: Vec<bool> = root_names.iter().map(|n| Path::new("/").join(n).exists()).collect();
+        let before = snapshot(&p);
+        let (code, text) = run(&cli, &p, &["generate", "--config", "typegen.json", "--force"])?;
+        let mut stray = Vec::new();
+        for (n, was) in root_names.iter().zip(&there_before) { let f = Path::new("/").join(n); if !*was && f.exists() { stray.push(f.to_string_lossy().to_string()); let _ = fs::remove_file(&f); } }
+        if !stray.is_empty() { return Err(format!("run in {} with an empty output path created {}", p.display(), stray.join(", "))); }
+        let after = snapshot(&p);
+        for (f, bytes) in &before { if after.get(f) != Some(bytes) { return Err(format!("{} was modified or removed", f)); } }
+        for f in after.keys() { if !before.contains_key(f) && !reserved(f) { return Err(format!("created {}", f)); } }
+        if code == 0 && !after.contains_key("types.ts") { return Err(format!("reported success, but no types.ts in the working directory: {}", text.chars().take(200).collect::<String>())); }
+        Ok(format!("status {}", code))
+    });
 
     // ---------------------------------------------------------------- C16: generate touches only the output directory
     for mode in ["none", "zod"] {
